@@ -300,7 +300,8 @@ class _Inliner(object):
     return None, False
 
   # -- one call ------------------------------------------------------------
-  def expand(self, call, caller, cls, target=None, as_return=False):
+  def expand(self, call, caller, cls, target=None, as_return=False,
+             keep_names=()):
     """(statements, result expression) for `call`, or None"""
     fn, is_method = self.helper_of(call, cls)
     if fn is None or fn is caller:
@@ -310,10 +311,16 @@ class _Inliner(object):
       return None
     body = copy.deepcopy(_strip_doc(fn.body))
     assigned = set()
+    comp_vars = set()
+    for s in body:
+      for n in ast.walk(s):
+        if isinstance(n, ast.comprehension):
+          comp_vars.update(id(x) for x in ast.walk(n.target))
     for s in body:
       for n in ast.walk(s):
         if isinstance(n, ast.Name) and isinstance(n.ctx, (ast.Store,
-                                                          ast.Del)):
+                                                          ast.Del)) and \
+            id(n) not in comp_vars:
           assigned.add(n.id)
     caller_names = {n.id for n in ast.walk(caller) if isinstance(n, ast.Name)}
     caller_names |= {a.arg for a in ast.walk(caller) if isinstance(a, ast.arg)}
@@ -335,6 +342,7 @@ class _Inliner(object):
             value=copy.deepcopy(a)), call))
     tnames = {n.id for n in ast.walk(target) if isinstance(n, ast.Name)} \
         if target is not None else set()
+    tnames |= set(keep_names)
     for loc in assigned - set(bound):
       if loc in caller_names and loc not in tnames:
         rename[loc] = loc + tag
@@ -453,7 +461,18 @@ class _Inliner(object):
       if hdr:
         for h in hdr:
           for c in self._calls_in(h, cls):
-            r = self.expand(c, caller, cls)
+            keep = set()
+            if isinstance(s, ast.Assign) and len(s.targets) == 1 and \
+                isinstance(s.targets[0], ast.Name):
+              # a helper local named like the variable this statement
+              # assigns may keep its name unless the statement also reads
+              # the old value
+              t = s.targets[0].id
+              reads = sum(1 for m in ast.walk(s.value)
+                          if isinstance(m, ast.Name) and m.id == t)
+              if reads == 0:
+                keep.add(t)
+            r = self.expand(c, caller, cls, keep_names=keep)
             if r is None or r[1] is None:
               continue
             out.extend(r[0])
@@ -508,6 +527,63 @@ def _assigned_after(fn, lineno):
   return out
 
 
+def split_versions(fn, known_locals):
+  """an unknown local that is assigned several times, each value being used
+  only in the statements that follow its assignment in the same block, is
+  split into one name per assignment (so that each can be substituted)"""
+  params = {a.arg for a in ast.walk(fn.args) if isinstance(a, ast.arg)}
+  stores, loads = {}, {}
+  for n in ast.walk(fn):
+    if isinstance(n, ast.Name):
+      (stores if isinstance(n.ctx, (ast.Store, ast.Del)) else loads
+       ).setdefault(n.id, []).append(n)
+  for name, sts in sorted(stores.items()):
+    if len(sts) < 2 or name in known_locals or name in params or \
+        name.startswith('__'):
+      continue
+    defs = []       # (block, index)
+    for owner in ast.walk(fn):
+      for f in ('body', 'orelse', 'finalbody'):
+        block = getattr(owner, f, None)
+        if not (isinstance(block, list) and block and isinstance(
+            block[0], ast.stmt)):
+          continue
+        for i, s in enumerate(block):
+          if isinstance(s, ast.Assign) and len(s.targets) == 1 and \
+              isinstance(s.targets[0], ast.Name) and s.targets[0].id == name:
+            defs.append((block, i))
+    if len(defs) != len(sts):
+      continue
+    claims = []
+    ok = True
+    for block, i in defs:
+      mine = []
+      for k in range(i + 1, len(block)):
+        st = block[k]
+        if isinstance(st, ast.Assign) and len(st.targets) == 1 and \
+            isinstance(st.targets[0], ast.Name) and st.targets[0].id == name:
+          mine += [n for n in ast.walk(st.value)
+                   if isinstance(n, ast.Name) and n.id == name]
+          break
+        if any(isinstance(n, ast.Name) and n.id == name and isinstance(
+            n.ctx, (ast.Store, ast.Del)) for n in ast.walk(st)):
+          ok = False
+          break
+        mine += [n for n in ast.walk(st)
+                 if isinstance(n, ast.Name) and n.id == name]
+      claims.append(mine)
+    all_claimed = [id(n) for c in claims for n in c]
+    if not ok or len(all_claimed) != len(set(all_claimed)) or len(
+        all_claimed) != len(loads.get(name, [])):
+      continue
+    for v, ((block, i), mine) in enumerate(zip(defs, claims)):
+      new = '%s__v%d' % (name, v)
+      block[i].targets[0].id = new
+      for n in mine:
+        n.id = new
+  return fn
+
+
 def substitute_new_locals(fn, known_locals):
   """single-assignment locals that the inventory does not know are replaced
   by their defining expression"""
@@ -528,15 +604,46 @@ def substitute_new_locals(fn, known_locals):
             block[0], ast.stmt)):
           continue
         for i, s in enumerate(block):
+          n_stores = 1
+          if isinstance(s, ast.If):
+            # `if c: x = A  else: x = B` defines x = A if c else B
+            from .model import fold_ifexp
+            f2 = fold_ifexp(s)
+            if isinstance(f2, ast.Assign) and isinstance(
+                f2.targets[0], ast.Name):
+              n_stores = sum(1 for x in ast.walk(s) if isinstance(
+                  x, ast.Name) and isinstance(x.ctx, ast.Store) and
+                             x.id == f2.targets[0].id)
+              s = f2
           if not (isinstance(s, ast.Assign) and len(s.targets) == 1 and
                   isinstance(s.targets[0], ast.Name)):
             continue
           name = s.targets[0].id
           if name in known_locals or name in params or stores.get(
-              name, 0) != 1 or name.startswith('__ret'):
+              name, 0) != n_stores:
             continue
           if any(isinstance(x, (ast.Yield, ast.Await, ast.NamedExpr,
                                 ast.Lambda)) for x in ast.walk(s.value)):
+            continue
+          # a container that is updated in place (x[i] = ..., x[i] *= ...,
+          # x.append(...)) is state, not a name for an expression
+          mutated = False
+          for x in ast.walk(fn):
+            if isinstance(x, (ast.Subscript, ast.Attribute)) and isinstance(
+                x.ctx, (ast.Store, ast.Del)) and isinstance(
+                    x.value, ast.Name) and x.value.id == name:
+              mutated = True
+            if isinstance(x, ast.AugAssign) and any(
+                isinstance(y, ast.Name) and y.id == name
+                for y in ast.walk(x.target)):
+              mutated = True
+            if isinstance(x, ast.Call) and isinstance(
+                x.func, ast.Attribute) and isinstance(
+                    x.func.value, ast.Name) and x.func.value.id == name and \
+                x.func.attr in ('append', 'extend', 'add', 'update', 'pop',
+                                'insert', 'remove', 'sort', 'setdefault'):
+              mutated = True
+          if mutated:
             continue
           # every use must come later in this block (or below it)
           uses_in = [n for st in block[i + 1:] for n in ast.walk(st)
@@ -686,6 +793,7 @@ def normalise_module(modname, tree):
       before = local_names(fn)
       if before - known:
         split_tuple_assignments(fn)
+        split_versions(fn, known)
         substitute_new_locals(fn, known)
       if inv[q].get('returns'):
         name_returns(fn, inv[q]['returns'])
